@@ -90,17 +90,24 @@ def h(t, part):
         t.force([part['first']])
     expected_order = []
     for k in range(part['n']):
-        e, ns = SLOTS[t.choice(4)]
+        slot = t.choice(4)
+        e, ns = SLOTS[slot]
         sid = sids[(e, ns)]
         if part.get('ret_trees'):
             idk, eid, x, args = 2, t.int(1, 2), 7, []
-        if (k == 0 or part.get('full_second')) and not part.get('ret_trees'):
+        routing_only = slot != 0 and k == 0 and not part.get('full_slots')
+        if routing_only:
+            # the other senders / namespaces: one fixed event shape (routing and isolation are what is checked)
+            idk, eid, x, args, ret = 2, t.int(1, 2), 5, [5], (5, 's')
+        if (k == 0 or part.get('full_second')) and not part.get('ret_trees') and not routing_only:
             idk = t.choice(4)
             eid = None if idk == 0 else 0 if idk == 1 else t.int(1, 2) if idk == 2 else BIG
             x = t.int(-3, 3)
             argform = t.choice(3)
             args = [[], [x], [b'\x01\x02', {'k': [x, b'z']}]][argform]
-        if k == 0 or part.get('full_second') or part.get('ret_trees'):
+        if routing_only:
+            pass
+        elif k == 0 or part.get('full_second') or part.get('ret_trees'):
             if part.get('ret_trees'):
                 cntb = [0]
 
@@ -192,7 +199,8 @@ def parts(tier):
                 n = 1 if tier == 'quick' else 2
                 if tier == 'quick' and ah and who != 'fn':
                     continue
-                out.append({'async': a, 'who': who, 'async_handlers': ah, 'n': n, 'full_second': tier != 'quick' and who == 'fn' and not ah})
+                out.append({'async': a, 'who': who, 'async_handlers': ah, 'n': n, 'full_second': tier != 'quick' and who == 'fn' and not ah,
+                            'full_slots': tier != 'quick'})
     if tier == 'quick':
         # two consecutive events (order, per-client isolation) for the function-handler configuration
         out += [{'async': a, 'who': 'fn', 'async_handlers': False, 'n': 2, 'first': f} for a in (False, True) for f in range(4)]
@@ -209,7 +217,7 @@ META = dict(
     explanation='Real _handle_eio_message -> _handle_event -> _handle_event_internal -> _trigger_event of Server and '
                 'AsyncServer (binary reassembly through the real Packet.add_attachment), with the responsible party, the '
                 'id, the arguments and the handler\'s return value drawn from the tape.',
-    bounds={'quick': 'one event (two for the function-handler configuration) from {e0:/, e0:/a, e1:/, e1:/a (not '
+    bounds={'quick': 'one event (two for the function-handler configuration) from {e0:/ with the full product below; e0:/a, e1:/, e1:/a (not '
                      'connected)}; id in {None, 0, symbolic 1..2, 10^20}; arguments in {(), (x), (bytes, '
                      '{k:[x,bytes]})} with symbolic x; return in {None, x, 0, "", list, dict, tuple, bytes, dict->list->bytes} and every tree of depth <= 2, width <= 2 over {x, bytes}; responsible '
                      'party in %r; async_handlers in {False, True}' % (WHO,),
